@@ -12,7 +12,7 @@ pub fn classify<T>(m: &T) {
         let st: &StatType = unsafe { &*(m as *const T as *const StatType) };
         match st {
             StatType::Error(_) => record_error_from_formats(),
-            StatType::Fatal(_) => unsafe { N_FATAL += 1 },
+            StatType::Fatal(_) => unsafe { ST.n_fatal += 1 },
             _ => {}
         }
     }
@@ -121,9 +121,19 @@ pub static VCFG_SANITY_ITS: VCfg = VCfg { mode: 1, target: 1, ..VCFG0 };
 pub static VCFG_ALL_ITS: VCfg = VCfg { mode: 2, target: 1, ..VCFG0 };
 pub static VCFG_ALL_STAVE: VCfg = VCfg { mode: 2, target: 2, ..VCFG0 };
 /// for harnesses that need symbolic option values: set it first, then take `vcfg_dyn()`
-pub static mut VCFG_DYN: VCfg = VCFG0;
+pub struct VCfgDyn {
+    magic: u64,
+    pub cfg: VCfg,
+}
+/// unique initial bytes: see the note at `VState` in vsup.rs
+pub static mut VCFG_DYN: VCfgDyn = VCfgDyn { magic: 0x5645_5249_465F_4346, cfg: VCFG0 };
+pub fn set_vcfg_dyn(c: VCfg) {
+    unsafe {
+        VCFG_DYN.cfg = c;
+    }
+}
 pub fn vcfg_dyn() -> &'static VCfg {
-    unsafe { &*core::ptr::addr_of!(VCFG_DYN) }
+    unsafe { &*core::ptr::addr_of!(VCFG_DYN.cfg) }
 }
 
 impl ChecksOpt for VCfg {
